@@ -159,6 +159,53 @@ def selftest_models(item, res):
     paths = ex.explore(run, want_model=False)
     if any(p.exc is not None for p in paths):
         raise EngineError("model self-test raised: %r" % [p.exc for p in paths if p.exc is not None][:1])
+    # int(int / 2**k): IEEE-754 double semantics of the SFloat model vs CPython
+    for _ in range(40):
+        big = rnd.getrandbits(rnd.choice([20, 54, 60, 70, 100, 128]))
+        for kk in (0, 1, 8, 33):
+            vb = z3.BitVec("sb", 130)
+            e3 = Explorer()
+
+            def hf(ex_, big=big, kk=kk, vb=vb):
+                ex_.assume(vb == z3.BitVecVal(big, 130))
+                return core.sym_int(SInt(vb, 0, (1 << 128) - 1, 130) / (2 ** kk))
+            ps = e3.explore(hf)
+            r = ps[0].result
+            got = r if isinstance(r, int) else ps[0].model.eval(r.e, model_completion=True).as_signed_long()
+            checks += 1
+            if len(ps) != 1 or got != int(big / 2 ** kk):
+                raise EngineError("SFloat mismatch: int(%d / 2**%d) = %d vs %r" % (big, kk, int(big / 2 ** kk), got))
+    # int(str) on symbolic text: every path (value or ValueError) agrees with CPython on its model, and the paths cover
+    # the characters CPython tolerates (sign, surrounding whitespace, underscore)
+    for b in (10, 16):
+        for lit in ([None, None], [ord("4"), None, None], [None, ord("7"), None]):
+            e4 = Explorer()
+            vs_ = [z3.BitVec("si%d" % i, 8) for i in range(len(lit))]
+
+            def hi(ex_, b=b, lit=lit, vs_=vs_):
+                for c in vs_:
+                    ex_.assume(z3.Not(core.in_set_expr(c, frozenset(ord(ch) for ch in "xXbBoO"))))
+                return core.sym_int(SStr.mk([v if l is None else l for v, l in zip(vs_, lit)]), b)
+            seen_valid_nondigit = False
+            for p_ in e4.explore(hi):
+                if p_.model is None:
+                    continue
+                text = "".join(chr(p_.model.eval(v, model_completion=True).as_long()) if l is None else chr(l) for v, l in zip(vs_, lit))
+                try:
+                    want = int(text, b)
+                except ValueError:
+                    want = "ValueError"
+                if p_.exc is not None:
+                    got = type(p_.exc).__name__
+                else:
+                    r = p_.result
+                    got = r if isinstance(r, int) else p_.model.eval(r.e, model_completion=True).as_signed_long()
+                    seen_valid_nondigit = seen_valid_nondigit or not all(ch in "0123456789abcdefABCDEF" for ch in text)
+                checks += 1
+                if got != want:
+                    raise EngineError("int() model mismatch on %r base %d: %r vs CPython %r" % (text, b, got, want))
+            if not seen_valid_nondigit:
+                raise EngineError("int() model self-test never reached a literal with sign/whitespace/underscore")
     # SStr methods vs str on concrete data forced through the symbolic route
     ex2 = Explorer()
 
